@@ -40,6 +40,7 @@ var svcNames = []string{"store", "calc", "front", "svc"}
 var formats = []string{"date", "date-time", "uuid", "email", "hostname", "ipv4", "ipv6", "ip", "uri", "mac", "cidr", "regexp", "json", "rfc1123"}
 
 type gen struct {
+	routes    map[string]bool
 	lastCred  string
 	risky     string
 	riskyUsed bool
@@ -442,6 +443,16 @@ func (g *gen) method(s *Service, name string, cell int) {
 	s.Methods = append(s.Methods, m)
 	verb := verbs[(g.o.Index+cell)%len(verbs)]
 	h := &HTTPMap{Verb: verb, Path: "/" + name}
+	if s.Path == "" {
+		// services without a path prefix share one route space: keep the routes distinct
+		if g.routes == nil {
+			g.routes = map[string]bool{}
+		}
+		for g.routes[verb+" "+h.Path] {
+			h.Path += "-" + s.Name
+		}
+		g.routes[verb+" "+h.Path] = true
+	}
 	m.HTTP = h
 	hasBody := verb == "POST" || verb == "PUT" || verb == "PATCH"
 
